@@ -1,19 +1,30 @@
 #!/bin/sh
 # Sensitivity self-test: every seeded change under /verif/seeded/<id>/ is
-# applied to /repo, the quick check of the property it breaks must exit 1 with a
-# VIOLATION line, and /repo is restored straight afterwards.
+# applied, the quick check of the property it breaks must exit 1 with a
+# VIOLATION line, and the tree is restored straight afterwards.
+# Default: applied to /repo itself (git -C /repo apply ... ; git -C /repo checkout -- .).
+# With SENS_SCRATCH=1 a scratch worktree of /repo's HEAD under $TMPDIR is used
+# instead (VERIF_REPO points the checks at it), so /repo stays untouched; the
+# worktree is removed at the end.
 # usage: selftest/sensitivity.sh [seeded-id ...]
 cd "$(dirname "$0")/.." || exit 2
 git -C /repo status --short | grep -q . && { echo "/repo not clean"; exit 2; }
+TREE=/repo
+if [ -n "$SENS_SCRATCH" ]; then
+  TREE="${TMPDIR:-/tmp}/verif-sens-$$"
+  git -C /repo worktree add --detach "$TREE" HEAD >/dev/null 2>&1 || { echo "cannot create worktree"; exit 2; }
+  export VERIF_REPO="$TREE"
+  trap 'git -C /repo worktree remove --force "$TREE" >/dev/null 2>&1' EXIT INT TERM
+fi
 IDS="$*"; [ -z "$IDS" ] && IDS="$(ls seeded)"
 missed=0
 for id in $IDS; do
   prop=$(/venv/bin/python -c "import json;print(json.load(open('seeded/$id/meta.json'))['caught_by'][0])")
-  git -C /repo apply "$PWD/seeded/$id/patch.diff" || { echo "$id: patch does not apply"; missed=$((missed+1)); continue; }
+  git -C "$TREE" apply "$PWD/seeded/$id/patch.diff" || { echo "$id: patch does not apply"; missed=$((missed+1)); continue; }
   out=$(./check "$prop" --tier quick 2>&1); rc=$?
-  git -C /repo checkout -- .
+  git -C "$TREE" checkout -- .
   sig=$(echo "$out" | grep -m1 "^violation:" | cut -c1-160)
   if [ $rc -eq 1 ]; then echo "CAUGHT  $id by $prop: $sig"; else echo "MISSED  $id by $prop (exit $rc)"; missed=$((missed+1)); fi
 done
-git -C /repo status --short | head -3
+git -C "$TREE" status --short | head -3
 exit $missed
